@@ -2,11 +2,13 @@
    PROVED here, for every position obtained from any successfully constructed position by any finite
    sequence of successfully applied moves (checked form; the unchecked form keeps them too):
    the mask clauses and the agreement of the per-square queries with the masks.
-   The remaining clauses of the property (exactly one king per side, mover not in check, castling rights
-   and en-passant consistency) are stated in C06_validity_partial below as the invariant [Chess.valid (abs b)];
-   they are tied to the code by the correspondence run (fields mon, ksq, build, spec-valid) and their proof
-   rests on the legality refinement of C01/C02 (see DESIGN.md §5). *)
-Require Import LC.model.Prims LC.model.Board LC.proofs.Bits LC.proofs.Cols LC.proofs.MaskInv LC.proofs.MoveInv LC.proofs.C06Proofs.
+   The remaining clauses (exactly one king per side and the reported king square, mover not in check, castling rights
+   and en-passant consistency) are PROVED too, for every position obtained from a well-formed description (64 squares,
+   en-passant square on the board) by construction and any sequence of applied moves: C06_validity, C06_king_square.
+   They rest on proofs/ValidStep.v (every rule-legal move preserves validity: C06_valid_step), proofs/C03Proofs.v (the
+   library applies a move only if it is rule-legal) and C02 (the result is the rule-defined successor); C06_history
+   says every reachable position is the rule-level result of a legal-move sequence from a valid position. *)
+Require Import LC.model.Prims LC.model.Board LC.proofs.Bits LC.proofs.Cols LC.proofs.MaskInv LC.proofs.MoveInv LC.proofs.C06Proofs LC.spec.Chess LC.proofs.C05Proofs LC.proofs.C02Proofs LC.proofs.C01a LC.proofs.ValidStep LC.proofs.Reach.
 Open Scope N_scope.
 
 Theorem C06_masks : forall K b, reachable K b ->
@@ -35,3 +37,26 @@ Qed.
 (* one step: the invariant is inductive for the unchecked application form as well *)
 Theorem C06_step_unchecked : forall K b mv b', Inv K b -> wf_bmove mv -> make_move_unchecked K b mv = Ok b' -> Inv K b'.
 Proof. exact Inv_make_move_unchecked. Qed.
+(* the remaining clauses: every reachable position is a valid chess position *)
+Theorem C06_validity : forall K b, wreachable K b ->
+  length (placement (abs b)) = 64%nat /\ one_king (abs b) White = true /\ one_king (abs b) Black = true /\
+  in_check (abs b) (opp (b_stm b)) = false /\ right_ok (abs b) White = true /\ right_ok (abs b) Black = true /\ ep_ok (abs b) = true.
+Proof.
+  intros K b R. pose proof (g_valid K b (wreachable_good K b R)) as V.
+  destruct (valid_parts _ V) as (L & RW & RB & E). destruct (valid_parts2 _ V) as (KW & KB & NC). auto 10.
+Qed.
+(* the reported king square is the square of that side's only king *)
+Theorem C06_king_square : forall K b c, wreachable K b ->
+  exists k, king_square b c = Ok k /\ k < 64 /\ piece_at (abs b) k = Some (King, c) /\
+            forall x, x < 64 -> piece_at (abs b) x = Some (King, c) -> x = k.
+Proof.
+  intros K b c R. pose proof (wreachable_good K b R) as [[I _] _ V _]. destruct (valid_parts2 _ V) as (KW & KB & _).
+  assert (K1 : one_king (abs b) c = true) by (destruct c; [exact KW|exact KB]).
+  destruct (one_king_sq _ _ K1) as (k & Ek & Hk & Pk). exists k. rewrite (king_square_spec b c I), Ek.
+  split; [reflexivity|]. split; [exact Hk|]. split; [exact Pk|]. intros x Hx Px. exact (one_king_unique _ c k x K1 Hk Hx Pk Px).
+Qed.
+(* validity is preserved by every rule-legal move (rule level), and every applied move is rule-legal *)
+Theorem C06_valid_step : forall p mv, valid p = true -> legal p mv = true -> valid (apply p mv) = true.
+Proof. exact valid_step. Qed.
+Theorem C06_history : forall K b, wreachable K b -> exists p0 ms, valid p0 = true /\ all_legal p0 ms = true /\ abs b = spec_play p0 ms.
+Proof. exact wreachable_history. Qed.
